@@ -142,6 +142,8 @@ def _node(draw, depth: int, valid: bool, top: bool = True):
         node["size"] = derived + draw(st.one_of(st.sampled_from([1, 2, 3]), st.integers(1, 40)))
     elif size_mode == "minus":
         node["size"] = max(lo, derived - draw(st.sampled_from([1, 1, 2, 3, 8])), 0)
+    if valid and top and derived == 0 and not node["size"]:
+        node["size"] = draw(st.integers(1, 40))  # an empty image cannot be saved at all
     return node
 
 
